@@ -1743,16 +1743,25 @@ func tableRace(m *meta, rng *rand.Rand, round int) {
 	h := kioshun.NewVerifHtable(pick(rng, []int{0, 4}))
 	ctx := fmt.Sprintf("table race round %d", round)
 	const resident, absent = 1 << 20, 1<<20 + 1
+	// resident2 sits BEHIND 300 keys of the same home slot (a long walk for the readers); the writer keeps removing and re-adding those (tombstones
+	// in front of it) and rewrites resident2 in place through probe + swapAt, the SieveTinyLFU update path
+	const resident2, crowd0, crowdN = 1<<20 + 2, 1<<20 + 10, 300
 	hashOf := func(k int) uint64 {
 		switch {
 		case k == resident:
 			return ^uint64(0) // last slot of every table size: copied last by a rebuild
 		case k == absent:
 			return 7
+		case k == resident2 || (k >= crowd0 && k < crowd0+crowdN):
+			return 0x5555555555555555
 		}
 		return uint64(k) * 0x9E3779B97F4A7C15
 	}
 	h.Store(resident, hashOf(resident), 42)
+	for j := 0; j < crowdN; j++ {
+		h.Store(crowd0+j, hashOf(crowd0+j), j)
+	}
+	h.Store(resident2, hashOf(resident2), 43)
 	stop := make(chan struct{})
 	var wg sync.WaitGroup
 	var bad atomic.Int64
@@ -1777,6 +1786,10 @@ func tableRace(m *meta, rng *rand.Rand, round int) {
 					bad.Add(1)
 					what.Store(fmt.Sprintf("always-resident key reported (%d,%v)", v, ok))
 				}
+				if v, ok := h.Lookup(resident2, hashOf(resident2)); !ok || v != 43 {
+					bad.Add(1)
+					what.Store(fmt.Sprintf("always-resident key behind tombstones, rewritten in place by probe+swapAt, reported (%d,%v)", v, ok))
+				}
 				if v, ok := h.Lookup(absent, hashOf(absent)); ok {
 					bad.Add(1)
 					what.Store(fmt.Sprintf("never-inserted key found with value %d", v))
@@ -1788,6 +1801,20 @@ func tableRace(m *meta, rng *rand.Rand, round int) {
 	n := 20000 + rng.Intn(60000)
 	for i := 0; i < n; i++ {
 		k := rng.Intn(4096)
+		if i%7 == 0 {
+			j := crowd0 + rng.Intn(crowdN)
+			if rng.Intn(2) == 0 {
+				h.Remove(j, hashOf(j))
+			} else {
+				h.Store(j, hashOf(j), i)
+			}
+			if found, _ := h.Probe(resident2, hashOf(resident2)); found {
+				h.SwapAt(resident2, hashOf(resident2), 43)
+			} else {
+				h.Unpin()
+			}
+			continue
+		}
 		switch rng.Intn(10) {
 		case 0, 1, 2, 3, 4, 5:
 			h.Store(k, hashOf(k), i)
